@@ -356,6 +356,16 @@ def check_dup(chk, prog, summ, f, nullable):
     check_nullflow(chk, prog, summ, f, nullable, 'D4')
 
 
+_FATAL = {}
+
+
+def fatal_params(prog):
+    if id(prog) not in _FATAL:
+        _FATAL.clear()
+        _FATAL[id(prog)] = nullness.fatal_guarded_params(prog, NORETURN)
+    return _FATAL[id(prog)]
+
+
 def check_nullflow(chk, prog, summ, f, nullable, rule):
     cfg = nullness.prepared_cfg(f, NORETURN)
     # D4: dereference / dispatch through nullable fields and elements
@@ -401,6 +411,11 @@ def check_nullflow(chk, prog, summ, f, nullable, rule):
                 if nullable_path(a) and cn and summ.derefs_param(cn, j):
                     p = X.apath(a)
                     sites.append((n, a, "arg of %s" % cn, p is not None and ("nn", p) in state))
+                elif nullable_path(a) and cn and (cn, j) in fatal_params(prog):
+                    # the callee treats NULL here as a broken invariant: fatal at runtime level >= 1, refused at level 0,
+                    # dereferenced in a DEBUG=0 build
+                    p = X.apath(a)
+                    sites.append((n, a, "ASSERT-guarded argument of %s" % cn, p is not None and ("nn", p) in state))
 
     # locals copied from nullable fields (src = self->head) inherit nullability: track via a light alias map
     if cfg is not None:
